@@ -60,6 +60,7 @@ type link struct {
 	peerReset  bool
 	ordinal  int // k-th link of its endpoint
 	onData   func()
+	unblockedAt time.Duration
 }
 
 func (e *env) newLink(ep *epCfg, name string) *link {
